@@ -721,7 +721,8 @@ func c16Run(c *fw.Ctx) {
 			report(sc.Name, x, owned, tr, s, true)
 		})
 	}
-	c.Res.Bound = "2-caller scenarios: all interleavings; 3-caller scenarios: preemption bound 3 (quick) / unbounded (thorough)"
+	c16RunE2E(c)
+	c.Res.Bound = "2-caller scenarios: all interleavings; 3-caller scenarios: preemption bound 3 (quick) / unbounded (thorough); e2e/*: all interleavings of two whole requests at lock and back-channel granularity, preemption bound 1-2 at statement granularity"
 }
 
 func sfDescribe(tr *sfTrace) []string {
@@ -744,6 +745,7 @@ func init() {
 		Rule: "stateless DFS over choice vectors of the REAL singleflight.Group and of both SingleFlightProvider wrappers (proxy and authenticator side) over a scripted inner provider that mutates its session argument the way SSOProvider/Okta/Google do; " +
 			"threads = 2-3 callers x 1-2 calls over colliding and non-colliding subjects/endpoints; choice points = next thread at every mutex/WaitGroup operation and inside the provider call, and the call's outcome; " +
 			"oracle = interval model (DESIGN.md A.4): executions of one subject disjoint, a merged caller's result comes from an overlapping execution of the same endpoint and subject, none after the leader returned, leader told the number of joiners, no deadlock, merged caller's session fields equal the leader's; " +
+			"e2e/*: two whole requests through the REAL proxy (environment -> LoadConfig -> New -> logging handler) as scheduler threads, authenticator answered in memory inside the calling thread (a scheduling point per call), real loopback backends, in the statement-granularity scenarios a scheduling point before every statement of oauthproxy.go; differential oracle: every request ends exactly as it ends when it runs alone; " +
 			"distinct_nontrivial = distinct (who ran / who merged / results) signatures among executions in which at least one call was merged",
 		Assumptions: []string{
 			"sequentially consistent memory; unsynchronised accesses are looked for by the separate free-running -race pass",
